@@ -28,7 +28,48 @@ def run_one(exe, sc, k, persist=False):
         return None, "hang"
     if p.returncode != 0:
         return None, "rc=%d" % p.returncode
+    for ln in p.stderr.splitlines():
+        if ln.startswith("SITES"):
+            SITES_SEEN.update(ln.split()[1:])
     return [ln for ln in p.stdout.splitlines() if ln.startswith("{")], ""
+
+
+SITES_SEEN = set()
+
+
+def static_sites():
+    """functions of the library sources that contain an allocating call (from the working tree)"""
+    import re
+    out = {}
+    fdef = re.compile(r"^(?:EXPORT\s+|static\s+|inline\s+)*[A-Za-z_][\w\s\*]*?\b(\w+)\s*\([^;]*$")
+    for s in build.source_list():
+        cur = []          # the names declared since the last function body ended (#ifdef variants of one definition)
+        for i, ln in enumerate(open(os.path.join(build.REPO, s)).read().splitlines(), 1):
+            if ln.startswith("}"):
+                cur = []
+            m = fdef.match(ln)
+            if m and not ln.startswith((" ", "\t", "#", "/", "*")) and m.group(1) not in ("if", "while", "for", "switch", "return", "sizeof"):
+                cur.append(m.group(1))
+            if re.search(r"\b(malloc|calloc|realloc)\s*\(", ln) and not ln.lstrip().startswith(("*", "//", "/*")):
+                out.setdefault("|".join(cur) or "?", []).append("%s:%d" % (os.path.basename(s), i))
+    return out
+
+
+def resolve_sites(exe):
+    """function names (nm symbol ranges of the non-PIE harness binary) that the recorded return addresses fall into"""
+    syms = []
+    for ln in subprocess.run(["nm", "-S", "--defined-only", exe], stdout=subprocess.PIPE, text=True).stdout.splitlines():
+        p = ln.split()
+        if len(p) == 4 and p[2] in "tT":
+            syms.append((int(p[0], 16), int(p[0], 16) + int(p[1], 16), p[3]))
+    out = set()
+    for a in SITES_SEEN:
+        v = int(a, 16)
+        for lo, hi, name in syms:
+            if lo <= v < hi:
+                out.add(name)
+                break
+    return out
 
 
 def run(prop, tier, seed, workdir):
@@ -81,6 +122,10 @@ def run(prop, tier, seed, workdir):
         samples=[dict(scenario=s[1], what=SCENARIOS[s[1]], fail_k=s[2], events=s[3]) for s in sessions[1:4]],
         states=r["distinct"], transitions=r["states"], traces_validated_against_impl=len(sessions), scenarios_with_allocations=nsites,
         scenario_list=SCENARIOS, exhaustive=True)
+    reached = resolve_sites(exe)
+    static = static_sites()
+    res.coverage["functions_with_allocating_call_sites"] = {f: v for f, v in sorted(static.items())}
+    res.coverage["allocating_functions_not_reached"] = sorted(f for f in static if not (set(f.split("|")) & reached))
     res.assumptions = ["allocation sites are reached through the %d listed scenarios; a new allocating call site needs a new scenario" % len(SCENARIOS),
                        "only allocations made directly by library objects are intercepted (libc-internal allocations are not failed)",
                        "one failing position per run, and runs in which every request from the k-th on fails; arbitrary subsets of failing requests are not enumerated"]
